@@ -437,9 +437,78 @@ def s3_lookups_between_saves(ctx):
                            'kept': sum(seqs[variant]), 'kept_without_lookups': sum(seqs['no_lookups'])})
 
 
+def unusual_operation_shapes(ctx):
+    """Black box (rates 0 / 1 and forcing only, no draw involved): (a) the operation class is a METACLASS, so the object the operation runs
+    on is itself a class (registry / plugin style: Plugin.refresh()); (b) an operation that, while it is being recorded, replays a stored
+    recording of another class on the same recorder (an audit / self-check operation) and then finishes normally."""
+    from playback.tape_recorder import TapeRecorder, RecordingParameters
+    from vlib import genclasses
+    rows = [('default', None, False, 'save'), ('skipped', dict(skipped=True), False, 'none'), ('rate0', dict(sampling_rate=0.0), False, 'abort'),
+            ('rate0_forced', dict(sampling_rate=0.0), True, 'save'),
+            ('rate0_forced_ignored', dict(sampling_rate=0.0, ignore_enforced_sampling=True), True, 'abort'), ('rate1', dict(sampling_rate=1.0), False, 'save')]
+    for shape in ('metaclass', 'nested_play', 'plain'):
+        for name, params, force, expect in rows:
+            with open_box('memory') as box:
+                spy = SpyCassette(box.cassette)
+                rec = TapeRecorder(spy)
+                rec.enable_recording()
+                stored = {}
+
+                class Other(object):
+                    @rec.operation()
+                    def execute(self):
+                        return self.read()
+
+                    @rec.intercept_input('shape.other.read')
+                    def read(self):
+                        return 'other'
+                Other = genclasses.register(type('ShapeOther_%s_%s' % (shape, name), (Other,), {}))
+                if shape == 'nested_play':
+                    Other().execute()
+                    stored['id'] = [e for e in spy.log if e[0] == 'save'][-1][2]
+
+                def body(obj):
+                    v = obj.read()
+                    if shape == 'nested_play':
+                        pb = rec.play(stored['id'], lambda recording: Other().execute())
+                        assert pb.playback_outputs is not None
+                    if force:
+                        rec.force_sample_recording()
+                    return v
+                if shape == 'metaclass':
+                    ns = {'refresh': rec.operation()(lambda cls: body(cls)), 'read': rec.intercept_input('shape.read')(lambda cls: 1)}
+                    Meta = genclasses.register(type('ShapeMeta_%s' % name, (type,), ns))
+                    if params is not None:
+                        rec.recording_params(RecordingParameters(**params))(Meta)
+                    target = Meta('ShapePlugin_%s' % name, (object,), {})
+                    call = target.refresh
+                else:
+                    ns = {'refresh': rec.operation()(lambda self: body(self)), 'read': rec.intercept_input('shape.read')(lambda self: 1)}
+                    cls = genclasses.register(type('ShapeOp_%s_%s' % (shape, name), (object,), ns))
+                    if params is not None:
+                        rec.recording_params(RecordingParameters(**params))(cls)
+                    call = cls().refresh
+                for k in range(3):
+                    n0 = len(spy.log)
+                    try:
+                        call()
+                    except Exception as ex:
+                        ctx.violation('operation of shape %s raised %s' % (shape, type(ex).__name__), {'shape': shape, 'row': name, 'error': repr(ex)[:200]})
+                        break
+                    ev = [e[0] for e in spy.log[n0:] if e[0] in ('create', 'save', 'abort')]
+                    got = 'none' if not ev else ('save' if ev == ['create', 'save'] else ('abort' if ev == ['create', 'abort'] else 'other:' + ','.join(ev)))
+                    ctx.case(('shape', shape, name, k))
+                    ctx.count('unusual_shape_decisions')
+                    if got != expect:
+                        ctx.violation('operation shape %r with policy %r: decision %r, the policy says %r' % (shape, name, got, expect),
+                                      {'shape': shape, 'row': name, 'index': k})
+                        break
+
+
 def run(ctx):
     from playback.tape_recorder import TapeRecorder
     if ctx.shard == 0:
+        unusual_operation_shapes(ctx)
         blackbox_histories(ctx)          # needs no access to internals: runs before the parts that install a draw-logging RNG
         s3_lookups_between_saves(ctx)
     env.anchor(TapeRecorder, '_should_sample_active_recording')
